@@ -116,9 +116,94 @@ theorem cond_selects {σ ρ t c a l r σ'} :
     · exact .cond_false h₁ ((truthy_iff tv).mpr h₂) h₃
     · exact .cond_void h₁ ((truthy_iff tv).mpr h₂)
 
-/-- `(if 0 (tick 1) (tick 2))`: `0` is true, only the consequent's tick happens -/
-example : evalExpr 10 σ₀ 1 (.cond (lit 0) (.call (var "tick") [lit 1] none) (some (.call (var "tick") [lit 2] none)) none)
-    = (.ok (num 1), { σ₀ with ticks := ["i:1"], maxDepth := 1 }) := by
-  sorry
+/-- `(if 0 (tick 1) (tick 2))`: `0` is true; the value is the consequent's and exactly one `tick` happened -/
+example :
+    let r := evalExpr 10 σ₀ 1 (.cond (lit 0) (.call (var "tick") [lit 1] none) (some (.call (var "tick") [lit 2] none)) none)
+    r.1 = .ok (num 1) ∧ r.2.ticks.length = 1 := by
+  have h1 : σ₀.lookup 1 "tick" = some (.builtin .tick) := rfl
+  have ht : σ₀.ticks = [] := rfl
+  simp [lit, var, evalExpr, evalArgs, applyProcedure, applyLoop, evalPrim, Value.truthy, h1, procArity,
+    Builtin.arity, arityOk, Prim.applyPure, Prim.ok, num, leave, enter, ht]
+
+/-! ## 3. operands: each exactly once, left to right, before the call -/
+
+/-- Whenever `evalArgs` returns (not the fuel error) it returned the left-to-right store-threading
+`mapM` of `evalExpr` over the operand list (`Ref.mapEval`: each operand handed to the evaluator
+exactly once, in the store its predecessor left, the first error ending the traversal). -/
+theorem operands_once_in_order {n σ ρ es r σ'} (h : evalArgs n σ ρ es = (r, σ')) (hr : NotFuel r) :
+    mapEval (fun σ e => evalExpr n σ ρ e) σ es = (r, σ') :=
+  evalArgs_eq_mapEval h hr
+
+/-- The same without fuel: `EvalsArgs` IS the left-to-right `mapM` of `Evals`. -/
+theorem operands_once_in_order' {σ ρ es r σ'} :
+    EvalsArgs σ ρ es r σ' ↔ MapEvals (fun σ e r σ' => Evals σ ρ e r σ') σ es r σ' :=
+  evalsArgs_iff_mapEvals
+
+/-- `(+ (tick 1) (tick 2))`-like: two operands, two ticks, in order (the later tick is the head of the trace) -/
+example :
+    let r := evalArgs 10 σ₀ 1 [.call (var "tick") [var "x"] none, .call (var "tick") [var "y"] none]
+    r.1 = .ok [num 2, num 10] ∧ r.2.ticks.length = 2 := by
+  have h1 : σ₀.lookup 1 "tick" = some (.builtin .tick) := rfl
+  have h2 : σ₀.lookup 1 "x" = some (num 2) := rfl
+  have h3 : σ₀.lookup 1 "y" = some (num 10) := rfl
+  have h4 : ∀ t d m, Store.lookup { σ₀ with ticks := t, depth := d, maxDepth := m } 1 "tick" = some (.builtin .tick) :=
+    fun _ _ _ => rfl
+  have h5 : ∀ t d m, Store.lookup { σ₀ with ticks := t, depth := d, maxDepth := m } 1 "y" = some (num 10) :=
+    fun _ _ _ => rfl
+  have ht : σ₀.ticks = [] := rfl
+  simp [var, evalExpr, evalArgs, applyProcedure, applyLoop, h1, h2, procArity,
+    Builtin.arity, arityOk, Prim.applyPure, Prim.ok, leave, enter, h4, h5, ht]
+
+/-- One step of the evaluator on a call: the operator; then ALL the operands (`evalArgs`, whatever the
+operator gave); a non-procedure operator is the outcome, else the operands' error, else the
+application of the operator's value to the operands' values. -/
+theorem call_rule_step (n : Nat) (σ : Store) (ρ : Nat) (f : Expr) (args : List Expr) (l : Loc) :
+    evalExpr (n+1) σ ρ (.call f args l) =
+      match evalExpr n σ ρ f with
+      | (.error er, σ₁) => (.error er, σ₁)
+      | (.ok fv, σ₁) =>
+        match evalArgs n σ₁ ρ args with
+        | (ra, σ₂) =>
+          match procArity fv, ra with
+          | none, .error (.fuel, l) => (.error (.fuel, l), σ₂)
+          | none, _ => (.error (.nonProcedure, f.loc), σ₂)
+          | some _, .error er => (.error er, σ₂)
+          | some _, .ok vs => applyProcedure n σ₂ fv vs ρ := by
+  rw [evalExpr]
+  generalize evalExpr n σ ρ f = x
+  obtain ⟨rf, σ₁⟩ := x
+  cases rf with
+  | error er => rfl
+  | ok fv =>
+    simp only
+    generalize evalArgs n σ₁ ρ args = y
+    obtain ⟨ra, σ₂⟩ := y
+    simp only
+    cases procArity fv with
+    | none =>
+      simp only
+      split <;> split <;> simp_all
+    | some a => cases ra <;> rfl
+
+/-- The fuel-free call rule, as an equivalence: operator, operands, application. -/
+theorem call_rule {σ ρ f args l r σ'} :
+    Evals σ ρ (.call f args l) r σ' ↔
+      (∃ er, Evals σ ρ f (.error er) σ' ∧ r = .error er) ∨
+      (∃ fv σ₁ ra σ₂, Evals σ ρ f (.ok fv) σ₁ ∧ EvalsArgs σ₁ ρ args ra σ₂ ∧
+        ((procArity fv = none ∧ r = .error (.nonProcedure, f.loc) ∧ σ' = σ₂) ∨
+         ((procArity fv).isSome ∧ ∃ er, ra = .error er ∧ r = .error er ∧ σ' = σ₂) ∨
+         ((procArity fv).isSome ∧ ∃ vs, ra = .ok vs ∧ AppliesProc σ₂ fv vs ρ r σ'))) := by
+  constructor
+  · exact Evals.call_inv
+  · rintro (⟨er, h, rfl⟩ | ⟨fv, σ₁, ra, σ₂, h₁, h₂, ⟨h₃, rfl, rfl⟩ | ⟨h₃, er, rfl, rfl, rfl⟩ | ⟨h₃, vs, rfl, h₄⟩⟩)
+    · exact .call_op_err h
+    · exact .call_nonproc h₁ h₂ h₃
+    · exact .call_arg_err h₁ h₂ h₃
+    · exact .call h₁ h₂ h₃ h₄
+
+/-- `(+ x y)` in the inner frame, by the rules: operator `+`, operands 2 (innermost `x`) and 10, then the addition -/
+example : Evals σ₀ 1 (.call (var "+") [var "x", var "y"] none) (.ok (num 12)) (leave (enter σ₀)) :=
+  .call (.sym rfl) (.cons (.sym rfl) (.cons (.sym rfl) .nil)) rfl
+    (.of_loop (.builtin (by decide) rfl rfl (by simp)))
 
 end Ruschm.C01
